@@ -40,7 +40,7 @@ fn rss_bytes() -> u64 {
 /// Watchdog: a worker that makes no progress for VERIF_STALL_S seconds, or whose resident set
 /// exceeds VERIF_RSS_CAP_MB, exits with a distinctive code so the driver can attribute the case.
 fn start_watchdog() {
-    let stall = Duration::from_secs(env_u64("VERIF_STALL_S", 30));
+    let stall = Duration::from_secs(env_u64("VERIF_STALL_S", 20));
     let rss_cap = env_u64("VERIF_RSS_CAP_MB", 3072) * 1024 * 1024;
     std::thread::spawn(move || {
         let mut last = PROGRESS.load(Ordering::Relaxed);
